@@ -16,11 +16,13 @@ STR_PATTERNS = [
     "iFOO", "ifoo", "i*OO", "iFo*", "i*O*", "i?^FO", "iAB", "i*B*", "i",
     "i?O+", "i?^AB", "i?Bc", "i?OO$", "?^A", "?O",
     "if", "in", "i*", "1", "5", "true", "x.y", "a b",
+    # quotes that do not pair up are plain text
+    "\"fo'", "'ab\"", "i\"FOO'",
 ]
 NUM_PATTERNS = [">=5", ">5", "<5", "<=5", "=5", ">4.5", "<=5.5", "=5.0", ">-3", "<100", ">=0"]
 NUM_VALUES = [5, 0, 1, -3, 6, 4, 5.5, 5.0, 100, 9223372036854775807]
 HAY = ["", "foo", "FOO", "Foo", "foobar", "xfoo", "ab", "abc", "AB", "xaby", "bc", "c", "a", "o", "oo", "zzz", "*x*",
-       "fo", "x.y", "a b", "1", "5", "true", "i", "f", "n", "aXbc", "foo\nbar", "äfoo", "FOO bar ab"]
+       "fo", "x.y", "a b", "1", "5", "true", "i", "f", "n", "aXbc", "foo\nbar", "äfoo", "FOO bar ab", "\"fo'", "'ab\"", "\"foo'"]
 
 
 def pick(rng, xs):
